@@ -18,7 +18,7 @@ theorem C13.funnel {α} (r : Ex.R α) (k : InvKind) (h : r = .error (.invalid k)
     ∀ p, surface (.invalidDef p) = .invalid true := by
   subst h; exact ⟨rfl, rfl, fun _ => rfl⟩
 
-example : surface (innerOf (eval [] (.bin .div (.lit (.int "1")) (.lit (.int "0"))))) = .invalid true := by decide +kernel
+example : surface (innerOf (@eval StrNorm.plain [] (.bin .div (.lit (.int "1")) (.lit (.int "0"))))) = .invalid true := by decide +kernel
 
 /-- The funnel lets nothing but the deliberately passed `MemoryError`/`SystemError` reach the caller as a foreign
     exception, and whatever it reports carries the path; a foreign exception inside a visitor or the builder becomes
@@ -36,7 +36,7 @@ theorem C13.funnel_internal (i : Inner) :
 /-- On the hazard model: an expression inside the bounds of the property (literals within CPython's conversion limit,
     escapes within Unicode, exponents integral by syntax) evaluates to a value or is rejected — no hazardous Python
     operation is reached, so the surfaced outcome is `ok` or `invalid` with the path, for every environment. -/
-theorem C13.no_foreign (env : Env) (e : Expr) (hb : e.bounded = true) :
+theorem C13.no_foreign [StrNorm] (env : Env) (e : Expr) (hb : e.bounded = true) :
     ((∃ v, eval env e = .ok v) ∨ (∃ k, eval env e = .error (.invalid k)) ∨ eval env e = .error .unsupported) ∧
     (surface (innerOf (eval env e)) = .ok ∨ surface (innerOf (eval env e)) = .invalid true) := by
   cases h : eval env e with
@@ -54,13 +54,13 @@ example : (Expr.bin .pow (.lit (.int "2")) (.lit (.real "0.5"))).bounded = false
 
 /-- Conversely every hazard of the model is one of the listed operations: evaluating a binary operator on values
     reaches a hazard only through a power with a non-integral exponent. -/
-theorem C13.hazard_sources (op : BinOp) (a b : Val) (h : Hazard) (hh : evalBin op a b = .error (.hazard h)) :
+theorem C13.hazard_sources [StrNorm] (op : BinOp) (a b : Val) (h : Hazard) (hh : evalBin op a b = .error (.hazard h)) :
     ¬ intExpV op b := by
   intro hexp
   obtain ⟨k, hk⟩ := evalBin_err_invalid op a b hexp _ hh
   cases hk
 
-example : evalBin .pow (.rat (-1)) (.rat (1/2)) = .error (.hazard .powComplex) := by decide +kernel
+example : @evalBin StrNorm.plain .pow (.rat (-1)) (.rat (1/2)) = .error (.hazard .powComplex) := by decide +kernel
 
 /-- The only hazard of `Constant.__init__` is the UTF-8 encoding of a lone surrogate in a string initializer. -/
 theorem C13.const_hazard (ty : CTy) (v : Val) (h : Hazard) (hh : constCheck ty v = .error (.hazard h)) :
